@@ -28,7 +28,7 @@ def build(tier, seed, exclude):
     params = "sd: int"
     pre = [f"0 <= sd < {4 ** NS}"]
     ch = f"AP.S.decode(T.real(sd), {NS}, 4)"
-    for shape, nbits in (("indep", 2), ("forkjoin", 2), ("splitfail", 1), ("twobranch", 1)):
+    for shape, nbits in (("indep", 2), ("forkjoin", 2), ("splitfail", 1), ("twobranch", 1), ("nestedfail", 1)):
         for bits in range(1, 2 ** nbits):
             g.cond(f"h_{shape}_fail{bits}", params, pre, f"""
                 err = AP.c14({shape!r}, {bits}, {ch})
@@ -54,5 +54,5 @@ def build(tier, seed, exclude):
         err = AP.c14("indep", 1, [T.real(c0)])
         return False
     """, timeout=120, kind="twin")
-    return g.spec(bounds={"shapes": ["indep (f | k->m)", "forkjoin (s->(p,q)->j | t->u)", "splitfail (split s with one failing element -> d | i1->i2->i3; also with max_concurrent 1, 2)", "twobranch (a->b->x | c->d->y)"], "failing sets": "every non-empty subset of the failable nodes",
+    return g.spec(bounds={"shapes": ["indep (f | k->m)", "forkjoin (s->(p,q)->j | t->u)", "splitfail (split s with one failing element -> d | i1->i2->i3; also with max_concurrent 1, 2)", "twobranch (a->b->x | c->d->y)", "nestedfail (r1->r2->r3 | nested workflow a->b whose first job fails)"], "failing sets": "every non-empty subset of the failable nodes",
                           "schedule": f"{NS} four-way decisions, then a fixed default"})
